@@ -21,7 +21,7 @@ RULE = (
     "whose information comes from headers, .license siblings, REUSE.toml tables (override / aggregate / closest, with a '**' fallback table) or dep5 "
     "paragraphs, LICENSES/ holding exactly the used identifiers, plus noise that must not be reported (LICENSE files, empty files, symlinks, SPDX "
     "documents, git-ignored files), with and without Git; then 0..4 defects from {strip copyright, strip licence, drop licence text, unused text, junk "
-    "text, unknown id, wrong-case id, deprecated text, no extension, unreadable file, unparseable expression}.  A second population is fully random.  "
+    "text, unknown id, wrong-case id, deprecated text, no extension, unreadable file, unparseable expression, licence tag without a value}; half of the projects without a fallback table also get a Meson subproject with a REUSE.toml of its own, linted with and without --include-meson-subprojects.  A second population is fully random.  "
     "Oracle: exit 0 <=> summary.compliant <=> model says compliant, and each of the eight offender collections equals the model's set.  Non-trivial = "
     ">= 1 defect or >= 2 source kinds; distinct by project state."
 )
@@ -78,6 +78,26 @@ def check(ctx, c):
     root.mkdir()
     try:
         FP.materialise(root, state)
+        # a Meson subproject with a REUSE.toml of its own: without --include-meson-subprojects it is not part of the project at all (its
+        # licence text is then unused), with the option its file is covered and attributed by that REUSE.toml
+        meson = state["gkind"] != "dep5" and len(state["files"]) % 2 == 0 and not state.get("fallback") \
+            and not any(f["path"].startswith("subprojects/") for f in state["files"])
+        if meson:
+            tree.write_tree(root, {"subprojects/sp/x.py": "print('sub')\n", "LICENSES/LicenseRef-meson-sub.txt": "text\n",
+                                   "subprojects/sp/REUSE.toml": "version = 1\n\n[[annotations]]\npath = '**'\nSPDX-FileCopyrightText = '2020 Sub Project'\nSPDX-License-Identifier = 'LicenseRef-meson-sub'\n"})
+            if state["git"]:
+                tree.git(root, "add", "-A")
+            res_m, data_m = tree.lint_json(root, mp=mp, extra=("--include-meson-subprojects",))
+            ctx.label("meson-subproject-with-own-REUSE.toml")
+            if data_m is None:
+                ctx.fail(state, f"lint --include-meson-subprojects --json failed: {res_m.brief()}")
+            ent = tree.file_entry(data_m, "subprojects/sp/x.py")
+            if ent is None or not ent["copyrights"] or not ent["spdx_expressions"]:
+                ctx.fail(state, f"with --include-meson-subprojects, subprojects/sp/x.py should be covered and attributed by subprojects/sp/REUSE.toml: entry {ent}")
+            exp_m = dict(exp, files=dict(exp["files"], **{"subprojects/sp/x.py": None}))
+            compare(ctx, state, root, res_m, data_m, exp_m, what="lint --include-meson-subprojects --json")
+            inv2 = dict(exp["inv"], unused=set(exp["inv"]["unused"]) | {"LicenseRef-meson-sub"})
+            exp = dict(exp, inv=inv2, compliant=False)
         res, data = tree.lint_json(root, mp=mp)
         kinds = set()
         for f in state["files"]:
